@@ -1,6 +1,7 @@
 package main
 
 import (
+	"regexp"
 	"fmt"
 	"strconv"
 	"os"
@@ -222,6 +223,7 @@ func (V *Verifier) queryText(o *Oblig) string {
 			fmt.Fprintf(&body, "(assert (not %s))\n", o.Goal)
 		}
 		inst := V.instantiateUnfolds(body.String(), 1)
+		inst += embDistinctFacts(body.String())
 		if strings.Contains(body.String(), "(Render ") {
 			// rendering obligations compare concatenations of literal chunks:
 			// decompose every literal into its characters so that the
@@ -544,4 +546,71 @@ func (V *Verifier) findAppsM(e *SX, want map[string]bool, out map[string]*SX, de
 	for _, c := range e.List {
 		V.findAppsM(c, want, out, depth)
 	}
+}
+
+// embDistinctFacts: ground instances of "structs embedded by value are
+// objects of their own": for the embedded-struct references (emb.T.f x) that
+// occur in the query - two references through different fields are different
+// objects, (emb.T.f x) = (emb.T.f y) only if x = y, and none of them is an
+// object allocated by this activation (ref.*). Only pairs whose field heaps
+// can coincide matter, but the instances are cheap, so all pairs are given.
+var allocRefRe = regexp.MustCompile(`\bref\.[\w.$<>&*]+![0-9]+`)
+
+func embDistinctFacts(text string) string {
+	type app struct{ fn, arg, whole string }
+	seen := map[string]bool{}
+	var apps []app
+	for i := 0; i+5 < len(text); i++ {
+		if !strings.HasPrefix(text[i:], "(emb.") {
+			continue
+		}
+		depth, j := 0, i
+		for ; j < len(text); j++ {
+			if text[j] == '(' {
+				depth++
+			} else if text[j] == ')' {
+				depth--
+				if depth == 0 {
+					break
+				}
+			}
+		}
+		if j >= len(text) {
+			break
+		}
+		whole := text[i : j+1]
+		if seen[whole] {
+			continue
+		}
+		seen[whole] = true
+		sp := strings.IndexByte(whole, ' ')
+		if sp < 0 {
+			continue
+		}
+		apps = append(apps, app{fn: whole[1:sp], arg: strings.TrimSpace(whole[sp+1 : len(whole)-1]), whole: whole})
+	}
+	if len(apps) == 0 || len(apps) > 60 {
+		return ""
+	}
+	var b strings.Builder
+	for i := 0; i < len(apps); i++ {
+		for j := i + 1; j < len(apps); j++ {
+			a, c := apps[i], apps[j]
+			if a.fn != c.fn {
+				fmt.Fprintf(&b, "(assert (=> (not (= %s 0)) (not (= %s %s))))\n", a.whole, a.whole, c.whole)
+			} else if a.arg != c.arg {
+				fmt.Fprintf(&b, "(assert (=> (= %s %s) (= %s %s)))\n", a.whole, c.whole, a.arg, c.arg)
+			}
+		}
+	}
+	refs := map[string]bool{}
+	for _, r := range allocRefRe.FindAllString(text, -1) {
+		refs[r] = true
+	}
+	for _, r := range sortedBoolKeys(refs) {
+		for _, a := range apps {
+			fmt.Fprintf(&b, "(assert (not (= %s %s)))\n", r, a.whole)
+		}
+	}
+	return b.String()
 }
